@@ -33,6 +33,11 @@ type c04InIn struct {
 	Marks  []string `json:"marks"`
 	Client []string `json:"client"`
 	IsRef  bool     `json:"isRef,omitempty"`
+	// SrvFb: feedback lines the in-process reference server prints about cases of the batch:
+	// "<phase> <case> <delay ms>" with phase early (after its handshake, before any request) |
+	// shutdown (that long after the runner told it to stop, before it has ended).  Feedback counts
+	// whenever the peer reports it, as long as it has not ended.
+	SrvFb []string `json:"srvFb,omitempty"`
 }
 
 type c04InOut struct {
@@ -136,7 +141,22 @@ func c04InRun(in c04InIn) c04InOut {
 			return out
 		}
 	}
-	obs := cc.VerifC04InProc(cc.VerifC11InSpec{Names: names, Client: acts, IsRef: in.IsRef, TimeoutS: 40}, failing, flaky)
+	var srvFb []cc.VerifC04SrvFb
+	for _, l := range in.SrvFb {
+		f := strings.Fields(l)
+		if len(f) != 3 || (f[0] != "early" && f[0] != "shutdown") {
+			out.Invalid = true
+			return out
+		}
+		ci, err1 := strconv.Atoi(f[1])
+		ms, err2 := strconv.Atoi(f[2])
+		if err1 != nil || err2 != nil || ci < 0 || ci >= n || ms < 0 || ms > 2000 {
+			out.Invalid = true
+			return out
+		}
+		srvFb = append(srvFb, cc.VerifC04SrvFb{Phase: f[0], Case: ci, Msg: "late or early, feedback is feedback", DelayMs: ms})
+	}
+	obs := cc.VerifC04InProcFb(cc.VerifC11InSpec{Names: names, Client: acts, IsRef: in.IsRef, TimeoutS: 40}, failing, flaky, srvFb)
 	out.OK, out.Report, out.Hang = obs.OK, obs.Report, obs.Hang
 	switch obs.WaitErr {
 	case "", "hang":
@@ -222,6 +242,45 @@ func c04InGen(c *gen.Ctx) {
 			ins = append(ins, c04InIn{Marks: []string{m, "u"}, Client: []string{"req", "ans 0 error:" + string(k), "req", "ans 1 pass"}, IsRef: r.Bool()})
 			c.E.Count("inrun:client-error-message")
 		}
+	}
+	// feedback of the reference server counts whenever it is printed before the server has ENDED: right
+	// after its start, and during its graceful shutdown (the runner tells the server to stop as soon
+	// as the last response of the batch has arrived; a handler still running then may complain —
+	// request trailers, a request finished late, a cancelled call).  Every marking of the case the
+	// late complaint is about, clients that answer everything as expected.
+	for _, phase := range []string{"early", "shutdown"} {
+		for _, m := range marks {
+			for _, delay := range []int{0, 40, 150} {
+				if phase == "early" && delay > 0 {
+					continue
+				}
+				ins = append(ins, c04InIn{Marks: []string{m}, Client: []string{"req", "ans 0 pass"}, IsRef: true,
+					SrvFb: []string{fmt.Sprintf("%s 0 %d", phase, delay)}})
+				ins = append(ins, c04InIn{Marks: []string{"u", m}, Client: []string{"req", "ans 0 pass", "req", "ans 1 pass"}, IsRef: true,
+					SrvFb: []string{fmt.Sprintf("%s 1 %d", phase, delay)}})
+				c.E.Add("inrun:server-feedback:"+phase, 2)
+			}
+		}
+	}
+	nSrv := 12
+	if c.Thorough() {
+		nSrv = 300
+	}
+	for i := 0; i < nSrv; i++ {
+		n := r.Range(1, 4)
+		in := c04InIn{IsRef: true}
+		for k := 0; k < n; k++ {
+			in.Marks = append(in.Marks, gen.Pick(r, []string{"u", "u", "f", "k"}))
+			in.Client = append(in.Client, "req")
+			if r.Chance(5, 6) {
+				in.Client = append(in.Client, fmt.Sprintf("ans %d %s", k, gen.Pick(r, []string{"pass", "pass", "pass", "mismatch", "error:e"})))
+			}
+		}
+		for k := r.Range(1, 3); k > 0; k-- {
+			in.SrvFb = append(in.SrvFb, fmt.Sprintf("%s %d %d", gen.Pick(r, []string{"early", "shutdown", "shutdown"}), r.Intn(n), r.Intn(120)))
+		}
+		ins = append(ins, in)
+		c.E.Count("inrun:server-feedback:random")
 	}
 	nRand := 80
 	if c.Thorough() {
